@@ -48,6 +48,8 @@ pub struct Profile {
     pub p_indirect_call: f64,
     /// arithmetic whose destination is x0
     pub p_write_zero: f64,
+    /// sp is set from another register for a few stores and then restored from a copy
+    pub p_sp_excursion: f64,
     /// layout: `j main` first, then the functions, main last (nothing behind its exit)
     pub p_functions_first: f64,
     /// a function gets an error-exit block behind its epilogue (the exit ecall is then the last
@@ -86,6 +88,7 @@ impl Profile {
             p_branch_to_function: 0.0,
             p_indirect_call: 0.0,
             p_write_zero: 0.0,
+            p_sp_excursion: 0.0,
             p_functions_first: 0.25,
             p_tail_exit: 0.12,
             p_csr: 0.0,
@@ -127,6 +130,7 @@ impl Profile {
             p_branch_to_function: 0.0,
             p_indirect_call: 0.0,
             p_write_zero: 0.04,
+            p_sp_excursion: 0.03,
             p_functions_first: 0.25,
             p_tail_exit: 0.12,
             p_csr: 0.03,
@@ -507,6 +511,36 @@ impl<'a> G<'a> {
                 self.emit(Ins::lw(rd, 4, SP));
                 self.emit(Ins::addi(SP, SP, 16));
                 self.define(f, rd);
+            }
+            return;
+        }
+        if self.prof.p_sp_excursion > 0.0 && !f.is_main && f.frame > 0 && self.rng.chance(self.prof.p_sp_excursion) {
+            // the stack pointer goes on an excursion: it is set from some other register (whose
+            // value the analysis may know as "entry value + constant"), a few stores and loads go
+            // through it, then it comes back from a copy and a frame slot is read
+            if let Some(keep) = self.dst(f, &[]) {
+                self.emit(Ins::addi(keep, SP, 0));
+                f.reserved |= bit(keep);
+                // (never the copy itself: the stores would land in this function's own frame and
+                // break the convention the property presupposes of callees)
+                let cands: Vec<Reg> = [8u8, 9, 18, 10, 11, 5].into_iter().filter(|r| *r != keep).collect();
+                let from = *self.rng.pick(&cands);
+                let k = *self.rng.pick(&[-16, -32, 0, 16, -4]);
+                self.emit(Ins::addi(SP, from, k));
+                for _ in 0..1 + self.rng.below(2) {
+                    let r = self.src(f);
+                    let off = *self.rng.pick(&[0, 4, 8, 12, -4, 16]);
+                    let w = if self.rng.chance(0.3) { *self.rng.pick(&[StoreW::B, StoreW::H]) } else { StoreW::W };
+                    self.emit(Ins::Store { w, rs2: r, off, base: SP });
+                }
+                self.emit(Ins::addi(SP, keep, 0));
+                f.reserved &= !bit(keep);
+                self.define(f, keep);
+                let slots: Vec<i32> = f.st.stored.clone();
+                if let (Some(off), Some(rd)) = (slots.first().copied(), self.dst(f, &[])) {
+                    self.emit(Ins::lw(rd, off, SP));
+                    self.define(f, rd);
+                }
             }
             return;
         }
@@ -1043,6 +1077,10 @@ impl<'a> G<'a> {
             }
         }
         let b = if self.rng.chance(0.4) { ZERO } else { self.src(f) };
+        // the zero register stands on either side of the comparison
+        if b == ZERO && self.rng.chance(0.4) {
+            return (c, b, a);
+        }
         (c, a, b)
     }
 
